@@ -9,6 +9,7 @@ helper lemmas in `Lemmas/Template.lean`.
 -/
 import PybtexModel.Lemmas.Template
 import PybtexModel.Props.C05
+import PybtexModel.Lemmas.UniCase
 
 namespace Pybtex.Props
 open Pybtex Pybtex.RT Pybtex.Tmpl Pybtex.Tmpl.Spec
@@ -254,7 +255,7 @@ theorem C07_alpha_labels_neg :
     alphaSuffix [s "ab", s "ab", s "aba"] [s "ab", s "ab", s "aba"] [] = [s "aba", s "abb", s "aba"] ∧
     alphaProviso [s "ab", s "ab", s "aba"] = false ∧
     (view (formatBibliography [misc "k1" "ab", misc "k2" "ab", misc "k3" "aba"]
-        (fun _ => some ⟨.lit (.str (s "x")), []⟩) [s "*"] 2 .none .alpha)).elim (fun _ => []) (·.map (·.2.1))
+        (fun _ => some ⟨.lit (.str (s "x")), [], []⟩) [s "*"] 2 .none .alpha)).elim (fun _ => []) (·.map (·.2.1))
       = [s "aba", s "abb", s "aba"] ∧
     ¬ [s "aba", s "abb", s "aba"].Nodup := by
   refine ⟨by decide +kernel, by decide +kernel, by decide +kernel, by decide⟩
@@ -305,11 +306,11 @@ theorem C07_missing_required_eval (fuel : Nat) (ctx : Ctx) (t : T) :
 
 theorem C07_missing_required_eval_nonvacuous :
     -- no `journal`: reported, `journal` is a required node whose lookup fails; `note`, `year` are optional
-    (match eval 9 (ctxOf [misc "m" "K"] (misc "m" "K") ⟨tmpl, [(s "author", [.lit (.str (s "X"))])]⟩)
+    (match eval 9 (ctxOf [misc "m" "K"] (misc "m" "K") ⟨tmpl, [(s "author", [.lit (.str (s "X"))])], []⟩)
         (.join (.str []) (.str []) (.str []) [.optional [.field (s "note") .none false], .field (s "journal") .none false]) with
       | .error e => some e | .ok _ => none) = some (.missing (s "journal")) ∧
-    lookupFails (ctxOf [misc "m" "K"] (misc "m" "K") ⟨tmpl, []⟩) (.field (s "journal")) = true ∧
-    lookupFails (ctxOf [misc "m" "K"] (misc "m" "K") ⟨tmpl, []⟩) (.field (s "key")) = false := by decide +kernel
+    lookupFails (ctxOf [misc "m" "K"] (misc "m" "K") ⟨tmpl, [], []⟩) (.field (s "journal")) = true ∧
+    lookupFails (ctxOf [misc "m" "K"] (misc "m" "K") ⟨tmpl, [], []⟩) (.field (s "key")) = false := by decide +kernel
 
 /-- **Missing field, evaluator level (exact).** For some fuel the evaluation fails with
 `FieldIsMissing(f)` if and only if `Missing ctx t f`: going through the template left to right —
@@ -406,7 +407,8 @@ theorem C07_terminated_nonvacuous :
 protected atoms (characters with their markup) exactly as they are.  (3) A `sentence` node
 (`capfirst`, `capitalize`, `add_period`) leaves the protected atoms of the joined children as
 they are: the period it may append is not protected.  (4) So the value of a `field` node has
-exactly the protected atoms of the brace structure of the field's value. -/
+exactly the protected atoms of the brace structure of the field's value as the codec decodes it
+(`decodeOf ctx.decode v`: the real latexcodec result, supplied as data). -/
 theorem C07_protected_case :
     (∀ v r, fromLatex v = .ok r → sem [] r = flatLatex 0 v) ∧
     (∀ t, protAtoms (sem [] (lowerT t)) = protAtoms (sem [] t) ∧
@@ -418,7 +420,8 @@ theorem C07_protected_case :
       ∃ parts, evalList fuel ctx cs = .ok parts ∧
         protAtoms (sem [] r) = protAtoms (sem [] (joinParts sep sep sep parts))) ∧
     (∀ fuel ctx name fn r, eval fuel ctx (.field name fn false) = .ok r →
-      ∃ v, ctx.entry.findField name ctx.db = some v ∧ protAtoms (sem [] r) = protAtoms (flatLatex 0 v)) := by
+      ∃ v, ctx.entry.findField name ctx.db = some v ∧
+        protAtoms (sem [] r) = protAtoms (flatLatex 0 (decodeOf ctx.decode v))) := by
   refine ⟨fun v r h => sem_fromLatex h,
     fun t => ⟨protAtoms_lowerT t, protAtoms_upperT t, protAtoms_capfirst t, protAtoms_capitalize t,
       protAtoms_dashify t⟩, ?_, ?_⟩
@@ -468,7 +471,8 @@ not fail, the chosen alternative of a `first_of`; not the URL of an `href`, not 
 parts) has a value — the field exists (own or inherited), parses, and is passed through the
 node's `apply_func` — and the text of that value occurs in `str(r)` as a contiguous piece:
 literally, or up to letter case when the node is under a `sentence` with `capfirst`/`capitalize`.
-The text of the value is the field's string with the braces removed (`apply_func` none), resp.
+The text of the value is the field's string — as decoded by the codec, `decodeOf ctx.decode v` — with
+the braces removed (`apply_func` none), resp.
 equal to it up to letter case (`lower`, `capitalize`), resp. has the same atoms apart from the
 character `-` and the symbol `ndash` (`dashify`).  Lifted to the pipeline: this holds for
 every formatted entry and its template. -/
@@ -478,9 +482,10 @@ theorem C07_field_coverage :
     (∀ ctx o val, fieldValue ctx o = some val →
       ∃ v, ctx.entry.findField o.name ctx.db = some v ∧
         (o.raw = true → o.fn = .none → toStr val = v) ∧
-        (o.raw = false → o.fn = .none → toStr val = stripBraces v) ∧
-        (o.raw = false → (o.fn = .lower ∨ o.fn = .capitalize) → lower (toStr val) = lower (stripBraces v)) ∧
-        (o.raw = false → o.fn = .dashify → nonDash (sem [] val) = nonDash (flatLatex 0 v))) ∧
+        (o.raw = false → o.fn = .none → toStr val = stripBraces (decodeOf ctx.decode v)) ∧
+        (o.raw = false → (o.fn = .lower ∨ o.fn = .capitalize) →
+          lower (toStr val) = lower (stripBraces (decodeOf ctx.decode v))) ∧
+        (o.raw = false → o.fn = .dashify → nonDash (sem [] val) = nonDash (flatLatex 0 (decodeOf ctx.decode v)))) ∧
     (∀ es items cites mc sorting labels rep fs,
       formatBibliography es items cites mc sorting labels = (rep, .ok fs) →
       ∀ f ∈ fs, ∃ e ∈ resolvedEntries es cites mc, ∃ it, items e.key = some it ∧ f.key = e.key ∧
@@ -501,5 +506,126 @@ theorem C07_field_coverage_nonvacuous :
     -- dashify: runs of unprotected hyphens become one en-dash symbol, a protected hyphen stays
     (match fromLatex (s "11--20, 3{-}4") with | .ok r => some (toStr (dashify r)) | .error _ => none)
       = some (s "11<ndash>20, 3-4") := by decide +kernel
+
+/-! ### name coverage, abbreviation, Unicode keys and labels -/
+
+namespace C07Ex
+
+/-- `plain.NameStyle().format(Person("Donald Ervin Knuth, Jr"), abbr)`:
+`join [name_part(tie, abbr)[first + middle], name_part(tie)[von], name_part[last], name_part(before=", ")[jr]]` -/
+def knuth (abbr : Bool) : T :=
+  .join (.str []) (.str []) (.str [])
+    [.namePart (.str []) true abbr [.lit (mk .text [.str (s "Donald")]), .lit (mk .text [.str (s "Ervin")])],
+     .namePart (.str []) true false [],
+     .namePart (.str []) false false [.lit (mk .text [.str (s "Knuth")])],
+     .namePart (.str (s ", ")) false false [.lit (mk .text [.str (s "Jr")])]]
+
+def knuthItem (abbr : Bool) : Item :=
+  { template := tmpl, personTemplates := [(s "author", [knuth abbr])] }
+
+end C07Ex
+
+/-- **Name coverage.** By induction over ALL templates (in particular all name-style templates):
+when a template evaluates to `r`, every name word on the evaluated path — the literal children of
+the `name_part` nodes, reached through the name templates a `names` node evaluates; same
+traversal as `printed` — is shown in `str(r)` as a contiguous piece: the word itself, or
+`word.abbreviate()` when the `name_part` abbreviates (literally, or up to letter case under a
+`sentence` with `capfirst` / `capitalize`).  What `abbreviate()` shows of a word is
+`C07_abbreviate`.  Lifted to the pipeline: this holds for every formatted entry.  (That the
+shipped name styles put every part of the person — first, von, last, lineage — under a
+`name_part` is a fact about the serialised templates, checked by the oracle clause
+`name_coverage` on every case.) -/
+theorem C07_name_coverage :
+    (∀ fuel ctx t r, eval fuel ctx t = .ok r → ∀ o ∈ printedN fuel ctx t,
+      Covers o.caseChanged (toStr o.shown) (toStr r)) ∧
+    (∀ es items cites mc sorting labels rep fs,
+      formatBibliography es items cites mc sorting labels = (rep, .ok fs) →
+      ∀ f ∈ fs, ∃ e ∈ resolvedEntries es cites mc, ∃ it, items e.key = some it ∧ f.key = e.key ∧
+        ∀ o ∈ printedN evalFuel (ctxOf es e it) it.template,
+          Covers o.caseChanged (toStr o.shown) (toStr f.text)) := by
+  refine ⟨fun fuel ctx t r h o ho => (eval_nameCoverage ctx fuel).1 t r h o ho, ?_⟩
+  intro es items cites mc sorting labels rep fs h f hf
+  obtain ⟨e, hm, it, hi, hk, he⟩ := formatBibliography_ok_mem h f hf
+  exact ⟨e, hm, it, hi, hk, fun o ho => (eval_nameCoverage _ _).1 _ _ he o ho⟩
+
+theorem C07_name_coverage_nonvacuous :
+    -- the five words of "Donald Ervin Knuth, Jr" with abbreviate_names: the first names are shown as initials
+    (printedN evalFuel (ctxOf entries (art "A" "Abel" "2001" "T") (knuthItem true)) tmpl).map
+        (fun o => (toStr o.text, o.abbr, toStr o.shown))
+      = [(s "Donald", true, s "D."), (s "Ervin", true, s "E."), (s "Knuth", false, s "Knuth"), (s "Jr", false, s "Jr")] ∧
+    (eval evalFuel (ctxOf entries (art "A" "Abel" "2001" "T") (knuthItem true)) tmpl).toOption.map toStr
+      = some (s "D.<nbsp>E. Knuth, Jr.<newblock>T.<newblock>J, 2001.") ∧
+    (eval evalFuel (ctxOf entries (art "A" "Abel" "2001" "T") (knuthItem false)) tmpl).toOption.map toStr
+      = some (s "Donald<nbsp>Ervin Knuth, Jr.<newblock>T.<newblock>J, 2001.") := by decide +kernel
+
+/-- **`abbreviate()`.** The text is cut at every white-space character and hyphen outside
+`Protected` (`abbrPieces`; the separators are pieces of their own, nothing is lost: the pieces
+spell the text); the result spells, piece by piece, the first character followed by a period for
+a piece that is alphabetic (`str.isalpha`, the interpreter's table) and the piece itself
+otherwise — so it contains every piece of the word or its first letter plus `.`; on a plain
+string the rich-text operation agrees with `textutils.abbreviate` used for the alpha labels. -/
+theorem C07_abbreviate (t : RT) :
+    ((abbrPieces t).map toStr).flatten = toStr t ∧
+    toStr (abbreviate t) = ((abbrPieces t).map abbrPiece).flatten ∧
+    (∀ w, isAlphaTU w = true → ∃ c rest, toStr w = c :: rest ∧ isAlphaN c = true ∧ abbrPiece w = [c, '.']) ∧
+    (∀ w, isAlphaTU w = false → abbrPiece w = toStr w) :=
+  ⟨abbrPieces_flatten t, toStr_abbreviate_pieces t, fun _ h => abbrPiece_alpha h,
+   fun w h => by simp [abbrPiece, h]⟩
+
+theorem C07_abbreviate_nonvacuous :
+    -- a protected group is never cut; "É." is not alphabetic (the period) and stays
+    (abbrPieces (mk .text [.str (s "Jean-Paul É. "), mk .prot [.str (s "de la")]])).map toStr
+      = [s "Jean", s "-", s "Paul", s " ", s "É.", s " ", s "de la"] ∧
+    toStr (abbreviate (mk .text [.str (s "Jean-Paul Éric "), mk .prot [.str (s "de la")]])) = s "J.-P. É. de la" ∧
+    abbreviateStr (s "Jean-Paul Éric x2") = s "J.-P. É. x2" := by decide +kernel
+
+/-- **Sort keys and alpha labels outside ASCII** (the code uses `str.lower()`, `unicodedata`
+NFD and `str.isalpha`; the model uses the interpreter's regenerated tables).  The person key of
+`author_year_title` is case-normalised with `str.lower` (`lowerU`): normalising again changes
+nothing, and persons that differ in letter case only (ASCII case mapping) have the same key.
+`_strip_nonalnum` keeps exactly ASCII letters and digits: those of the text itself and the base
+letters of accented characters. -/
+theorem C07_unicode_keys :
+    (∀ p, lowerU (personKey p) = personKey p) ∧
+    (∀ p q : Person, lower (joinWith [' ', ' '] [sp (p.prelast ++ p.last), sp (p.first ++ p.middle), sp p.lineage])
+        = lower (joinWith [' ', ' '] [sp (q.prelast ++ q.last), sp (q.first ++ q.middle), sp q.lineage]) →
+      personKey p = personKey q) ∧
+    (∀ parts, ∀ c ∈ stripNonalnum parts, isAlnum c = true) := by
+  refine ⟨?_, fun p q h => lowerU_of_lower h, stripNonalnum_alnum⟩
+  intro p
+  simp only [personKey, lowerU, List.map_map]
+  exact List.map_congr_left fun c _ => lowerUC_idem c
+
+theorem C07_unicode_keys_nonvacuous :
+    -- Éz / éa: Python orders the lower-cased keys "éz  " > "éa  " (the ASCII model had "Éz" < "éa")
+    personKey { last := [s "Éz"] } = s "éz    " ∧ personKey { last := [s "éa"] } = s "éa    " ∧
+    strLt (personKey { last := [s "éa"] }) (personKey { last := [s "Éz"] }) = true ∧
+    -- Ångström: NFD + non-combining + [A-Za-z0-9] gives Angstrom, the label of a single author is its first three letters
+    stripNonalnum [s "Ångström"] = s "Angstrom" ∧
+    formatLabNames [{ first := [s "Anders"], last := [s "Ångström"] }] = some (s "Ang") ∧
+    formatLabNames [{ last := [s "Éz"] }, { prelast := [s "de"], last := [s "Ørsted-Ñandú"] }] = some (s "EdN") := by
+  decide +kernel
+
+/-- **Alpha base labels** (the `format_label` of the alpha label style, before the suffix letters):
+every base label ends with the last two characters of the year when the entry has one; the part
+made from a list of persons (`format_lab_names`) consists of ASCII letters, digits and `+` only
+(accents are stripped to base letters, everything else is dropped); for an entry of an ordinary
+type (not book / inbook / proceedings / manual) with authors the base label is exactly
+`format_lab_names(authors)` followed by the year suffix. -/
+theorem C07_alpha_base_label :
+    (∀ e l, formatLabel e = some l → ∃ b, l = b ++ year2 e) ∧
+    (∀ ps l, formatLabNames ps = some l → ∀ c ∈ l, isAlnum c = true ∨ c = '+') ∧
+    (∀ e ps, ¬(e.type = "book".toList ∨ e.type = "inbook".toList) → e.type ≠ "proceedings".toList →
+      e.type ≠ "manual".toList → getPersons e "author" = some ps →
+      formatLabel e = (formatLabNames ps).map (· ++ year2 e)) :=
+  ⟨formatLabel_year, formatLabNames_chars, formatLabel_author⟩
+
+theorem C07_alpha_base_label_nonvacuous :
+    formatLabel (art "b" "Zed" "1999" "T") = some (s "Zed99") ∧ year2 (art "b" "Zed" "1999" "T") = s "99" ∧
+    -- five authors: three initials and "+"; a final "others" counts as "+"
+    formatLabNames [{ last := [s "Aa"] }, { last := [s "Bb"] }, { last := [s "Cc"] }, { last := [s "Dd"] }, { last := [s "Ee"] }]
+      = some (s "ABC+") ∧
+    formatLabNames [{ prelast := [s "von"], last := [s "Ñandú"] }, { last := [s "others"] }] = some (s "vN+") := by
+  decide +kernel
 
 end Pybtex.Props
